@@ -366,6 +366,11 @@ def let_env(body):
             q = n["pat"]
             if q.get("k") == "Binding" and "Mut" not in (q.get("mode") or "").split(",")[-1] and not q.get("sub") and q.get("hid") is not None:
                 env[q["hid"]] = n["init"]
+            elif q.get("k") == "Tuple" and field_path(n["init"]) is not None:
+                # `let (l, r) = self.format.sentence.truth_brackets;` -- each binding is the corresponding field of the (pure) place
+                for i_, sub in enumerate(q.get("pats", [])):
+                    if sub.get("k") == "Binding" and "Mut" not in (sub.get("mode") or "").split(",")[-1] and not sub.get("sub") and sub.get("hid") is not None:
+                        env[sub["hid"]] = {"k": "Field", "e": n["init"], "name": str(i_), "line": n.get("line"), "exp": False}
     return env
 
 
@@ -399,6 +404,13 @@ def as_branch(e):
     c = t = el = None
     if e.get("k") == "If":
         c, t, el = e["cond"], e["then"], e.get("else")
+        # `if a { if b { X } }` (nothing else in the outer branch, no else on either) is `if a && b { X }`
+        while el is None and strip(c).get("k") != "LetExpr":
+            inner = _sole_if(t)
+            if inner is None or inner.get("else") is not None or strip(inner["cond"]).get("k") == "LetExpr":
+                break
+            c = {"k": "Binary", "op": "&&", "l": c, "r": inner["cond"], "ty": "bool", "line": e.get("line"), "exp": False}
+            t = inner["then"]
     elif e.get("k") == "Match" and len(e["arms"]) == 2 and "Desugar" not in e.get("source", "") and "ForLoop" not in e.get("source", ""):
         bools = {}
         for a in e["arms"]:
@@ -431,6 +443,24 @@ def as_branch(e):
             continue
         break
     return c, t, el
+
+
+def _sole_if(t):
+    """the `if` a block consists of (and nothing else), else None"""
+    if t is None:
+        return None
+    t = strip(t)
+    while t.get("k") == "DropTemps":
+        t = strip(t["e"])
+    if t.get("k") == "If":
+        return t
+    if t.get("k") == "Block":
+        items = [s_ for s_ in t["stmts"] if s_.get("k") != "Item"]
+        if len(items) == 1 and not t.get("expr") and items[0].get("k") in ("Semi", "Expr"):
+            return _sole_if(items[0]["expr"])
+        if not items and t.get("expr"):
+            return _sole_if(t["expr"])
+    return None
 
 
 _DUAL = {"||": "&&", "&&": "||", "Or": "And", "And": "Or"}
